@@ -184,7 +184,7 @@ def answerFold (e : KExpr) : String :=
     | .ok c => "ok " ++ showKVal c.get0
     | .err => "err"
     | .panic => "panic"
-  "fold=" ++ fold ++ " ;; rt=" ++ rt ++ " ;; " ++ " ".intercalate (foldTags e ++ tags).eraseDups
+  "fold=" ++ fold ++ " ;; rt=" ++ rt ++ " ;; " ++ " ".intercalate tags.eraseDups
 
 def answer (line : String) : String :=
   match Sexp.parse line with
